@@ -13,7 +13,7 @@
 //@hdrsubst cppManifest.h "from=ExpansionNode\(std::vector<ExpansionNode> nested[^;]*;" to=
 // default arguments that are class temporaries crash the front end (declaration of CPPManifest::expand, not a kernel)
 //@hdrsubst cpp*.h "from= = (vector_string|Ignores|CPPManifest::Ignores|YYSTYPE)\(\)" to=
-//@hdrinsert cppStructType.h after="bool is_destructible(CPPVisibility min_vis) const;" text="bool is_destructible__body(CPPVisibility min_vis) const; bool is_default_constructible__body(CPPVisibility min_vis) const;"
+//@hdrinsert cppStructType.h after="bool is_destructible(CPPVisibility min_vis) const;" text="bool is_destructible__body(CPPVisibility min_vis) const; bool is_default_constructible__body(CPPVisibility min_vis) const; bool is_copy_constructible__body(CPPVisibility min_vis) const;"
 //@bison src/cppparser/cppBison.yxx cppBison.h
 #include "dtoolbase.h"
 #include "cppStructType.h"
@@ -36,12 +36,16 @@ static int g_base_asked_vis[NB]; static bool g_base_asked_wrong;
 static CPPInstance *g_member[NM]; static CPPType *g_member_type[NM];
 static bool vin_member_type_dtor_ok[NM], vin_member_type_ctor_ok[NM];
 static bool vin_member_const_scalar[NM];      // the member is of const-qualified non-class type (e.g. `const int x;`)
-static CPPInstance *g_dtor, *g_default_ctor; static CPPFunctionGroup *g_ctors; static bool vin_abstract;
+static CPPInstance *g_dtor, *g_default_ctor, *g_copy_ctor, *g_move_ctor, *g_move_assign; static CPPFunctionGroup *g_ctors; static bool vin_abstract;
+static bool vin_base_copy_ok[NB], vin_member_type_copy_ok[NM];
 
 // ---- callees outside the kernel (contracts in replace form)
 CPPInstance *CPPStructType::get_destructor() const { return g_dtor; }
 CPPInstance *CPPStructType::get_default_constructor() const { return g_default_ctor; }
 CPPFunctionGroup *CPPStructType::get_constructor() const { return g_ctors; }
+CPPInstance *CPPStructType::get_copy_constructor() const { return g_copy_ctor; }
+CPPInstance *CPPStructType::get_move_constructor() const { return g_move_ctor; }
+CPPInstance *CPPStructType::get_move_assignment_operator() const { return g_move_assign; }
 bool CPPStructType::is_abstract() const { return vin_abstract; }
 class CPPConstType;
 static CPPConstType *vu_as_const_type(CPPType *t) { for (int i = 0; i < NM; i++) if (t == g_member_type[i]) return vin_member_const_scalar[i] ? (CPPConstType *)t : (CPPConstType *)0; return (CPPConstType *)0; }
@@ -55,11 +59,17 @@ bool CPPStructType::is_default_constructible(CPPVisibility min_vis) const {
   for (int i = 0; i < NB; i++) if (this == g_base[i]) { if (min_vis != V_protected) g_base_asked_wrong = true; return vin_base_ctor_ok[i]; }
   __CPROVER_assert(false, "C10.model: only bases are asked recursively"); return false;
 }
+bool CPPStructType::is_copy_constructible(CPPVisibility min_vis) const {
+  for (int i = 0; i < NB; i++) if (this == g_base[i]) { if (min_vis != V_protected) g_base_asked_wrong = true; return vin_base_copy_ok[i]; }
+  __CPROVER_assert(false, "C10.model: only bases are asked recursively"); return false;
+}
+bool CPPType::is_copy_constructible() const { for (int i = 0; i < NM; i++) if (this == g_member_type[i]) return vin_member_type_copy_ok[i]; return nondet_bool(); }
 bool CPPType::is_destructible() const { for (int i = 0; i < NM; i++) if (this == g_member_type[i]) return vin_member_type_dtor_ok[i]; return nondet_bool(); }
 bool CPPType::is_default_constructible() const { for (int i = 0; i < NM; i++) if (this == g_member_type[i]) return vin_member_type_ctor_ok[i]; return nondet_bool(); }
 
 //@extract src/cppparser/cppStructType.cxx CPPStructType::is_destructible ordinal=1 rename=__body "subst1=@\(\*di\)\._base->as_struct_type\(\)@vu_as_struct_type((*di)._base)@"
 //@extract src/cppparser/cppStructType.cxx CPPStructType::is_default_constructible ordinal=1 rename=__body "subst1=@\(\*di\)\._base->as_struct_type\(\)@vu_as_struct_type((*di)._base)@"
+//@extract src/cppparser/cppStructType.cxx CPPStructType::is_copy_constructible ordinal=1 rename=__body "subst1=@\(\*di\)\._base->as_struct_type\(\)@vu_as_struct_type((*di)._base)@"
 
 static int vin_nb, vin_nm; static bool vin_member_static[NM], vin_member_has_init[NM];
 static void make_class() {
@@ -76,8 +86,8 @@ static void make_class() {
     g_member[i]->_initializer = vin_member_has_init[i] ? (CPPExpression *)vu_alloc(8) : (CPPExpression *)0;   // (only tested against null)
     sc->_variables._d[i].second = g_member[i];
   }
-  for (int i = 0; i < NB; i++) { vin_base_dtor_ok[i] = nondet_bool(); vin_base_ctor_ok[i] = nondet_bool(); }
-  for (int i = 0; i < NM; i++) { vin_member_type_dtor_ok[i] = nondet_bool(); vin_member_type_ctor_ok[i] = nondet_bool(); }
+  for (int i = 0; i < NB; i++) { vin_base_dtor_ok[i] = nondet_bool(); vin_base_ctor_ok[i] = nondet_bool(); vin_base_copy_ok[i] = nondet_bool(); }
+  for (int i = 0; i < NM; i++) { vin_member_type_dtor_ok[i] = nondet_bool(); vin_member_type_ctor_ok[i] = nondet_bool(); vin_member_type_copy_ok[i] = nondet_bool(); }
   vin_abstract = nondet_bool();
   g_base_asked_wrong = false;
 }
@@ -117,7 +127,9 @@ void h_is_default_constructible() {
   g_ctors = (vin_has_dc || vin_has_other_ctor) ? (CPPFunctionGroup *)vu_alloc(8) : (CPPFunctionGroup *)0;
   bool r = g_self->is_default_constructible__body((CPPVisibility)vin_min_vis);
   bool want;
-  if (vin_abstract) want = false;
+  // [class.abstract]: no complete object of an abstract class; as a base-class subobject (the question a derived class
+  // asks, with protected access) an abstract class is constructed like any other
+  if (vin_abstract && vin_min_vis < V_protected) want = false;
   else if (vin_has_dc) want = vin_dc_vis <= vin_min_vis && !vin_dc_deleted;
   else if (vin_has_other_ctor) want = false;
   else {
@@ -128,7 +140,37 @@ void h_is_default_constructible() {
     for (int i = 0; i < NM; i++) if (i < vin_nm && !vin_member_static[i] && !vin_member_has_init[i] && vin_member_const_scalar[i]) want = false;
   }
 
-  OBL(r == want, "C10.is_default_constructible: equals the C++ rule (never for an abstract class; user default constructor: accessible and not deleted; other constructors: none implicit; implicit: every base and every non-static member without initializer default-constructible)");
+  OBL(r == want, "C10.is_default_constructible: equals the C++ rule (never a complete object of an abstract class, but an abstract base is constructible as a base; user default constructor: accessible and not deleted; other constructors: none implicit; implicit: every base and every non-static member without initializer default-constructible)");
   OBL(!g_base_asked_wrong, "C10.is_default_constructible: base classes are judged with protected access");
+  VU_REACHED();
+}
+
+void h_is_copy_constructible() {
+  make_class();
+  bool vin_has_cc = nondet_bool(), vin_cc_deleted = nondet_bool(), vin_has_move_ctor = nondet_bool(), vin_has_move_assign = nondet_bool();
+  bool vin_has_dtor = nondet_bool(), vin_dtor_deleted = nondet_bool();
+  int vin_cc_vis = nondet_int(), vin_dtor_vis = nondet_int(), vin_min_vis = nondet_int();
+  __CPROVER_assume(vin_cc_vis >= V_published && vin_cc_vis <= V_private && vin_dtor_vis >= V_published && vin_dtor_vis <= V_private && vin_min_vis >= V_published && vin_min_vis <= V_private);
+  vin_abstract = nondet_bool();
+  g_copy_ctor = maybe_member_function(vin_has_cc, vin_cc_vis, vin_cc_deleted);
+  g_move_ctor = maybe_member_function(vin_has_move_ctor, V_public, false); g_move_assign = maybe_member_function(vin_has_move_assign, V_public, false);
+  g_dtor = maybe_member_function(vin_has_dtor, vin_dtor_vis, vin_dtor_deleted);
+  bool r = g_self->is_copy_constructible__body((CPPVisibility)vin_min_vis);
+  // [class.abstract], [class.copy.ctor]: no complete object of an abstract class (an abstract base is copied as part of a
+  // derived object); a declared copy constructor decides by access and deletedness; the implicit one is deleted if the
+  // class declares a move constructor or move assignment operator, if the destructor is deleted or inaccessible, or if a
+  // base or non-static member cannot be copied
+  bool want;
+  if (vin_abstract && vin_min_vis < V_protected) want = false;
+  else if (vin_has_cc) want = vin_cc_vis <= vin_min_vis && !vin_cc_deleted;
+  else if (vin_has_move_ctor || vin_has_move_assign) want = false;
+  else if (vin_has_dtor && (vin_dtor_vis > vin_min_vis || vin_dtor_deleted)) want = false;
+  else {
+    want = true;
+    for (int i = 0; i < NB; i++) if (i < vin_nb && g_base_is_struct[i] && !vin_base_copy_ok[i]) want = false;
+    for (int i = 0; i < NM; i++) if (i < vin_nm && !vin_member_static[i] && !vin_member_type_copy_ok[i]) want = false;
+  }
+  OBL(r == want, "C10.is_copy_constructible: equals the C++ rule (never a complete object of an abstract class, but an abstract base is copied as a base; declared copy constructor: accessible and not deleted; implicit: deleted by a declared move operation, an unusable destructor, or a base or non-static member that cannot be copied)");
+  OBL(!g_base_asked_wrong, "C10.is_copy_constructible: base classes are judged with protected access");
   VU_REACHED();
 }
